@@ -791,7 +791,7 @@ const char *UtilContext::get_hex(const char *token, uint32_t *num)
 
   *num = n;
 
-  if (token[s] != '-') s++;
+  if (token[s] != '-' && token[s] != 0) s++;
 
   return token + s;
 }
